@@ -44,18 +44,21 @@ Section Compaction.
 
   (* loadRewriteAofFiles: rewrite.aof.tmp is opened in APPEND mode (an old one left by an interrupted compaction is
      kept and appended to), every delivered record for which HasLock answers true is appended, Flush, Close.
-     Result: the tmp pair and whether the load failed (then rewriteAofFiles returns without clearing). *)
-  Definition build_tmp (d : dir) (inputs : list fname) (now : Z) : bytes * bytes * bool :=
-    let '(a0, d0) := open_append fx (dget d FTmp) (dget d FTmpDat) in
+     Result: the tmp pair and whether the load failed (then rewriteAofFiles returns without clearing).
+     [fresh] is a SOURCE SWITCH (checks/C16.py reads it from the text of loadRewriteAofFiles): false = the code as it is
+     today, true = proposed_fixes/c16_stale_tmp.diff (a left-over tmp pair is removed before the file is opened). *)
+  Definition build_tmp_v (fresh : bool) (d : dir) (inputs : list fname) (now : Z) : bytes * bytes * bool :=
+    let '(a0, d0) := if fresh then open_append fx None None else open_append fx (dget d FTmp) (dget d FTmpDat) in
     let res := load_files fx bs now (map (fun f => (dget d f, dget d (dat_of f))) inputs) zero_buf in
     let '(its, ok) := match res with LOk its => (its, true) | LFail _ its => (its, false) | LFuel => ([], false) end in
     let '(a, dd) := apply_trace (run_ops bs (mkwst [] []) (item_ops (kept its))) a0 d0 in
     (a, dd, ok).
 
   (* the mutations of one compaction.  [rotate = true]: RewriteAofFile(true) (size threshold / admin command) while
-     the current append file is [cur] and its buffers are flushed (quiescent moment): first rotate to cur+1.
-     [rotate = false]: the start-up compaction launched by LoadAndInit/Load, current file [cur] stays. *)
-  Definition compact_steps (rotate : bool) (d : dir) (cur : N) (now : Z) : list mutation :=
+     the current append file is [cur] and its buffers are flushed: first rotate to cur+1.
+     [rotate = false]: the start-up compaction launched by LoadAndInit/Load, current file [cur] stays; also the
+     goroutine part of RewriteAofFile(true) after the rotation (compact_steps_rotate in RewriteProofs.v). *)
+  Definition compact_steps_v (fresh : bool) (rotate : bool) (d : dir) (cur : N) (now : Z) : list mutation :=
     let rot := if rotate then [MPut (FAppend (cur + 1)) header; MPut (FAppendDat (cur + 1)) []] else [] in
     let cur' := if rotate then cur + 1 else cur in
     let d1 := run_steps d rot in
@@ -63,7 +66,7 @@ Section Compaction.
     | None => rot
     | Some [] => rot
     | Some inputs =>
-      let '(a, dd, ok) := build_tmp d1 inputs now in
+      let '(a, dd, ok) := build_tmp_v fresh d1 inputs now in
       let tmp := [MPut FTmp a; MPut FTmpDat dd] in
       if ok then
         rot ++ tmp ++ flat_map (fun f => [MRemove f; MRemove (dat_of f)]) inputs
@@ -71,11 +74,17 @@ Section Compaction.
       else rot ++ tmp
     end.
 
-  Definition compact (rotate : bool) (d : dir) (cur : N) (now : Z) : dir := run_steps d (compact_steps rotate d cur now).
+  Definition compact_v (fresh rotate : bool) (d : dir) (cur : N) (now : Z) : dir := run_steps d (compact_steps_v fresh rotate d cur now).
 
   (* crash after the first k mutations *)
-  Definition crash_after (rotate : bool) (d : dir) (cur : N) (now : Z) (k : nat) : dir :=
-    run_steps d (firstn k (compact_steps rotate d cur now)).
+  Definition crash_after_v (fresh rotate : bool) (d : dir) (cur : N) (now : Z) (k : nat) : dir :=
+    run_steps d (firstn k (compact_steps_v fresh rotate d cur now)).
+
+  (* the code as it is today *)
+  Definition build_tmp := build_tmp_v false.
+  Definition compact_steps := compact_steps_v false.
+  Definition compact := compact_v false.
+  Definition crash_after := crash_after_v false.
 End Compaction.
 
 (* HasLock decisions given extensionally: the records (as they appear in rewrite.aof.tmp, i.e. with the REWRITED mark)
